@@ -10,20 +10,59 @@ fn strs(v: &Value) -> Vec<String> {
     v.as_array().unwrap().iter().map(|x| x.as_str().unwrap().to_string()).collect()
 }
 
-fn builder(case: &Value) -> (log4rs::config::runtime::ConfigBuilder, log4rs::config::Root) {
+/// Splits `items` into the runs a style hands over together: a run of one item goes through the single-item
+/// method, longer runs through the bulk method (ConfigBuild.tla: the sequence of declarations is the input, how it is
+/// handed to the builder is not).
+fn runs<T>(items: Vec<T>, style: usize) -> Vec<Vec<T>> {
+    let n = items.len();
+    let cuts: Vec<usize> = match style % 5 {
+        0 => (1..n).collect(),                 // one at a time
+        1 => vec![],                           // all at once
+        2 => vec![1],                          // the first alone, the rest at once
+        3 => vec![n.saturating_sub(1)],        // all but the last at once, the last alone
+        _ => vec![n / 2],                      // two bulk calls
+    };
+    let mut out: Vec<Vec<T>> = vec![vec![]];
+    for (i, it) in items.into_iter().enumerate() {
+        if cuts.contains(&i) && i > 0 {
+            out.push(vec![]);
+        }
+        out.last_mut().unwrap().push(it);
+    }
+    out.retain(|r| !r.is_empty());
+    out
+}
+
+fn builder(case: &Value, style: usize) -> (log4rs::config::runtime::ConfigBuilder, log4rs::config::Root) {
     let mut b = log4rs::Config::builder();
-    for a in strs(&case["apps"]) {
-        b = b.appender(log4rs::config::Appender::builder().build(a, Box::new(CountingAppender(Arc::new(Counter::default())))));
+    let apps: Vec<log4rs::config::Appender> = strs(&case["apps"])
+        .into_iter()
+        .map(|a| log4rs::config::Appender::builder().build(a, Box::new(CountingAppender(Arc::new(Counter::default())))))
+        .collect();
+    for mut run in runs(apps, style) {
+        b = if run.len() == 1 { b.appender(run.pop().unwrap()) } else { b.appenders(run) };
     }
-    for l in case["loggers"].as_array().unwrap() {
-        b = b.logger(
-            log4rs::config::Logger::builder()
-                .appenders(strs(&l["refs"]))
-                .build(l["name"].as_str().unwrap(), log::LevelFilter::Info),
-        );
+    let loggers: Vec<log4rs::config::Logger> = case["loggers"]
+        .as_array()
+        .unwrap()
+        .iter()
+        .enumerate()
+        .map(|(li, l)| {
+            let mut lb = log4rs::config::Logger::builder();
+            for mut run in runs(strs(&l["refs"]), style / 5 + li) {
+                lb = if run.len() == 1 { lb.appender(run.pop().unwrap()) } else { lb.appenders(run) };
+            }
+            lb.build(l["name"].as_str().unwrap(), log::LevelFilter::Info)
+        })
+        .collect();
+    for mut run in runs(loggers, style / 5) {
+        b = if run.len() == 1 { b.logger(run.pop().unwrap()) } else { b.loggers(run) };
     }
-    let root = log4rs::config::Root::builder().appenders(strs(&case["root"])).build(log::LevelFilter::Info);
-    (b, root)
+    let mut rb = log4rs::config::Root::builder();
+    for mut run in runs(strs(&case["root"]), style / 25 + style) {
+        rb = if run.len() == 1 { rb.appender(run.pop().unwrap()) } else { rb.appenders(run) };
+    }
+    (b, rb.build(log::LevelFilter::Info))
 }
 
 fn err_set(errs: &[ConfigError]) -> BTreeSet<(String, String)> {
@@ -60,9 +99,9 @@ fn check_errs(got: &BTreeSet<(String, String)>, case: &Value, which: &str) -> Op
     None
 }
 
-fn check_case(case: &Value) -> Option<Value> {
+fn check_case(ci: usize, case: &Value) -> Option<Value> {
     // lossy
-    let (b, root) = builder(case);
+    let (b, root) = builder(case, ci);
     let (cfg, errs) = match catch(|| b.build_lossy(root)) {
         Ok(x) => x,
         Err(p) => return Some(json!({"what": "build_lossy panicked", "error": p})),
@@ -93,7 +132,7 @@ fn check_case(case: &Value) -> Option<Value> {
         return Some(json!({"what": "installing / logging through the lossy result panicked", "error": p}));
     }
     // strict
-    let (b, root) = builder(case);
+    let (b, root) = builder(case, ci / 2 + 1);
     let strict = match catch(|| b.build(root)) {
         Ok(x) => x,
         Err(p) => return Some(json!({"what": "build panicked", "error": p})),
@@ -160,7 +199,7 @@ pub fn main(args: &[String]) {
     quiet_panics();
     let rows = read_ndjson(&args[0]);
     let res = par_map(&rows, threads(), |i, c| {
-        let m = if c.get("valid").is_some() { check_name(c) } else { check_case(c) };
+        let m = if c.get("valid").is_some() { check_name(c) } else { check_case(i, c) };
         m.into_iter().map(|m| json!({"case": i, "input": c, "mismatch": m})).collect()
     });
     write_ndjson(&args[1], &res);
